@@ -92,7 +92,7 @@ def snapshot(scratch, modules, rewrites=()):
         if not os.path.isfile(host):
             raise Instrumentation("host file %s no longer exists" % m["host"])
         with open(host, "a") as f:
-            f.write('\n#[cfg(kani)]\n#[path = "%s"]\nmod %s;\n'
+            f.write('\n#[cfg(kani)]\n#[path = "%s"]\npub(crate) mod %s;\n'
                     % (os.path.join(hdir, m["file"]), m["mod"]))
     for rw in rewrites:
         p = os.path.join(src, rw["file"])
@@ -158,7 +158,11 @@ def run_harness(scratch, src, crate, fullname, h):
     os.makedirs(os.path.dirname(logp), exist_ok=True)
     mem_kb = int(h.get("mem_gb", 8) * 1024 * 1024)
     timeout = int(h.get("timeout", 600))
-    cmd = kani_cmd(src, tdir, crate, fullname, h)
+    # harnesses flagged "big" reach most of the crate: with concrete playback on, CBMC emits a
+    # full trace per cover witness and the Kani driver needs > 10 GB to load them. They run
+    # without playback first and are re-run with it only when an assertion fails.
+    want_playback = not h.get("big", False)
+    cmd = kani_cmd(src, tdir, crate, fullname, h, playback=want_playback)
     env = dict(os.environ)
     env["CARGO_NET_OFFLINE"] = "true"
     env.pop("RUSTUP_TOOLCHAIN", None)
@@ -177,9 +181,27 @@ def run_harness(scratch, src, crate, fullname, h):
             except ProcessLookupError:
                 pass
             p.wait()
-    wall = time.time() - t0
     text = open(logp, errors="replace").read()
     res = parse_kani_log(text)
+    if not want_playback and res["checks_failed"] and not timed_out:
+        # second pass: same harness, this time asking for the concrete playback test
+        cmd2 = kani_cmd(src, tdir, crate, fullname, h, playback=True)
+        logp2 = logp[:-4] + ".playback.log"
+        with open(logp2, "w") as lf:
+            shcmd = "ulimit -v %d; exec %s" % (mem_kb * 2, " ".join(map(shquote, cmd2)))
+            p2 = subprocess.Popen(["bash", "-c", shcmd], cwd=src, stdout=lf, stderr=subprocess.STDOUT,
+                                  env=env, start_new_session=True)
+            try:
+                p2.wait(timeout=timeout + 600)
+            except subprocess.TimeoutExpired:
+                try:
+                    os.killpg(p2.pid, signal.SIGKILL)
+                except ProcessLookupError:
+                    pass
+                p2.wait()
+        res2 = parse_kani_log(open(logp2, errors="replace").read())
+        res["playback"] = res2.get("playback", [])
+    wall = time.time() - t0
     res.update(name=name, fullname=fullname, wall_s=round(wall, 1), rc=p.returncode,
                timed_out=timed_out, seeded=seeded, log=logp, cmd=" ".join(cmd))
     # drop the build output right away (disk), keep the log
@@ -308,8 +330,17 @@ def replay_failure(scratch, src, crate, modinfo, res):
     if not tests:
         return False, "Kani produced no concrete playback test", ""
     hfile = os.path.join(scratch, "h", modinfo["file"])
-    code = "\n".join(t["code"] for t in tests)
-    names = re.findall(r"fn (kani_concrete_playback_\w+)", code)
+    # Kani prints one test per failing check / satisfied cover; identical witnesses give
+    # identical function names, so keep one copy of each
+    seen = set()
+    uniq = []
+    for t in tests:
+        m = re.search(r"fn (kani_concrete_playback_\w+)", t["code"])
+        if m and m.group(1) not in seen:
+            seen.add(m.group(1))
+            uniq.append(t["code"])
+    code = "\n".join(uniq)
+    names = sorted(seen)[:6]
     with open(hfile, "a") as f:
         f.write("\n// ---- concrete playback (inserted by the driver) ----\n" + code + "\n")
     env = dict(os.environ)
@@ -334,6 +365,9 @@ def replay_failure(scratch, src, crate, modinfo, res):
             r = sh(cmd, cwd=src, env=penv)
             failed = bool(re.search(r"test result: FAILED", r.stdout))
             ran = bool(re.search(r"running 1 test", r.stdout))
+            if re.search(r"could not compile", r.stdout):
+                detail.append("[%s profile] REPLAY BUILD FAILED (harness does not compile natively):\n%s"
+                              % (prof, "\n".join(l for l in r.stdout.splitlines() if l.startswith("error"))[:1500]))
             reproduced[(prof, tn)] = failed and ran
             lines = [l for l in r.stdout.strip().splitlines() if len(l) < 400]
             tail = "\n".join(lines[-18:])
@@ -416,7 +450,7 @@ def main(argv):
                 why))
             if status == "FAILURE":
                 m = mods[h["mod"]]
-                ok, detail, code = replay_failure(scratch, src, P["crate"], m, res)
+                ok, detail, code = replay_failure(scratch, src, m.get("crate", P["crate"]), m, res)
                 res["replay_reproduced"] = ok
                 res["replay_detail"] = detail[-4000:]
                 if not ok:
@@ -481,7 +515,8 @@ def schedule(scratch, src, P, mods, harnesses, budget_gb, maxjobs):
     results = [None] * len(harnesses)
 
     def work(i, h):
-        need = h.get("mem_gb", 8)
+        # scheduling uses the expected resident size; `mem_gb` is the (virtual) ulimit -v cap
+        need = h.get("rss_gb", min(h.get("mem_gb", 8), 6))
         with lock:
             while state["jobs"] >= maxjobs or (state["mem"] + need > budget_gb and state["jobs"] > 0):
                 lock.wait()
@@ -489,7 +524,8 @@ def schedule(scratch, src, P, mods, harnesses, budget_gb, maxjobs):
             state["jobs"] += 1
         try:
             full = module_path(mods[h["mod"]]["host"], h["mod"]) + "::" + h["name"]
-            results[i] = (h, run_harness(scratch, src, P["crate"], full, h))
+            crate = mods[h["mod"]].get("crate", P["crate"])
+            results[i] = (h, run_harness(scratch, src, crate, full, h))
         finally:
             with lock:
                 state["mem"] -= need
@@ -537,7 +573,7 @@ def do_replay(prop, P, path):
     try:
         src = snapshot(scratch, P["modules"], P.get("rewrites", ()))
         res = {"playback": [{"harness": hm.group(1), "code": code}]}
-        ok, detail, _ = replay_failure(scratch, src, P["crate"], m, res)
+        ok, detail, _ = replay_failure(scratch, src, m.get("crate", P["crate"]), m, res)
         log(detail)
         if ok:
             log("VIOLATION property=%s replay=%s" % (prop, path))
